@@ -149,6 +149,12 @@ func c10prog(ps string, res *result) func() {
 				}
 			})
 		}
+		if p.traffic && r != nil {
+			// the window has already changed size (not yet noticed) and a key and a mouse
+			// report are waiting on the tty when the two calls start
+			r.tty.w, r.tty.h = 5, 2
+			r.tty.inject([]byte("k\x1b[<0;9;9M"))
+		}
 		run("A:"+ops[p.a].name, p.a)
 		run("B:"+ops[p.b].name, p.b)
 		if p.c >= 0 {
@@ -156,8 +162,8 @@ func c10prog(ps string, res *result) func() {
 		}
 		if p.traffic && r != nil {
 			spawn("terminal", func() {
-				r.tty.inject([]byte("k"))
-				r.tty.w, r.tty.h = 5, 2
+				r.tty.inject([]byte("\x1b[<32;2;1M"))
+				r.tty.w, r.tty.h = 6, 2
 				r.tty.notify()
 			})
 		}
